@@ -73,7 +73,7 @@ theorem shape_tail (S : Nat) (d : Bytes) (rest : List (Bytes × Bool)) (h : Shap
     position); if it ends cleanly after a well-shaped non-empty list it released all of it; and it
     can end cleanly under a failing source only through a segment flagged last. -/
 theorem runSegs_tamper (c : Crypto) (P : EncParams) (cph : Nat) (pk np : Bytes) (S S' : Nat)
-    (lc : c.Lawful P.overhead) (segs : List (Bytes × Bool)) (hsh : Shape S segs)
+    (lc : c.LawfulFor P pk np) (segs : List (Bytes × Bool)) (hsh : Shape S segs)
     (fin : Terminal) :
     ∀ (segs' : List (Bytes × Bool)) (i : Nat), PresentedNoForgery c P cph pk np segs segs' i →
       (∃ rest, (runSegs P.maxSeg (decryptSeg c P cph pk np) segs' i fin).out ++ rest = tailFrom segs i) ∧
